@@ -186,13 +186,18 @@ def solve(assertions, timeout_s=30.0, want_smt2=False, logic="auto"):
         s.add(c)
     smt2 = s.to_smt2() if want_smt2 else None
     t0 = time.time()
-    r = s.check()
+    status, model, reason = _check_forked(s, timeout_s)
     dt = time.time() - t0
     STATS["queries"] += 1
     STATS["seconds"] += dt
     STATS["max_seconds"] = max(STATS["max_seconds"], dt)
-    status = str(r)
     STATS[status] = STATS.get(status, 0) + 1
+    return Result(status, model, dt, smt2, reason)
+
+
+def _check_here(s):
+    r = s.check()
+    status = str(r)
     model = None
     reason = None
     if status == "sat":
@@ -204,7 +209,73 @@ def solve(assertions, timeout_s=30.0, want_smt2=False, logic="auto"):
                 model[d.name()] = val
     elif status == "unknown":
         reason = s.reason_unknown()
-    return Result(status, model, dt, smt2, reason)
+    return status, model, reason
+
+
+def _check_forked(s, timeout_s):
+    """run check() in a forked child so that the time limit is hard: z3's own
+    timeout does not cover its preprocessing of very large polynomials"""
+    import pickle
+    import select
+    import signal
+
+    if os.environ.get("SYMX_NO_FORK"):
+        return _check_here(s)
+    rfd, wfd = os.pipe()
+    pid = os.fork()
+    if pid == 0:
+        try:
+            os.close(rfd)
+            try:
+                signal.alarm(0)
+            except Exception:
+                pass
+            out = _check_here(s)
+            data = pickle.dumps(out)
+            with os.fdopen(wfd, "wb") as f:
+                f.write(data)
+        except BaseException as e:  # pragma: no cover
+            try:
+                os.write(wfd, pickle.dumps(("unknown", None, "child error: %r" % (e,))))
+            except Exception:
+                pass
+        finally:
+            os._exit(0)
+    os.close(wfd)
+    deadline = time.time() + timeout_s + 5.0
+    chunks = []
+    status = None
+    try:
+        while True:
+            left = deadline - time.time()
+            if left <= 0:
+                break
+            try:
+                rdy, _, _ = select.select([rfd], [], [], min(left, 1.0))
+            except InterruptedError:
+                continue
+            if rdy:
+                b = os.read(rfd, 1 << 16)
+                if not b:
+                    break
+                chunks.append(b)
+        if chunks:
+            try:
+                out = pickle.loads(b"".join(chunks))
+                return out
+            except Exception:
+                pass
+        return "unknown", None, "hard timeout (solver did not return within %.0f s)" % (timeout_s + 5)
+    finally:
+        os.close(rfd)
+        try:
+            os.kill(pid, signal.SIGKILL)
+        except ProcessLookupError:
+            pass
+        try:
+            os.waitpid(pid, 0)
+        except ChildProcessError:
+            pass
 
 
 def smt2_hash(smt2):
@@ -235,3 +306,64 @@ def second_opinion(smt2, timeout_s=30, binary="/usr/bin/z3"):
         return "unknown"
     finally:
         os.unlink(path)
+
+
+# ------------------------------------------------------- guard resolution
+
+_ITE_CACHE = {}
+
+
+def resolve_guards(roots, facts, timeout_s=5.0, max_conditions=40):
+    """Replace ite / abs nodes whose condition is decided by the facts
+    (solver-proved: facts |= c or facts |= not c).  Returns new roots."""
+    facts = [f for f in facts if f is not T.TRUE]
+    fkey = tuple(f.id for f in facts)
+    conds = []
+    for t in T.postorder(roots):
+        if t.op == "ite" and t.args[0] not in conds:
+            conds.append(t.args[0])
+        elif t.op == "abs":
+            c = T.ge(t.args[0], T.ZERO)
+            if c not in conds:
+                conds.append(c)
+    if not conds:
+        return roots
+    conds.sort(key=lambda c: T.size(c))
+    truth = {}
+    for c in conds[:max_conditions]:
+        if c is T.TRUE or c is T.FALSE:
+            continue
+        key = (c.id, fkey)
+        if key not in _ITE_CACHE:
+            v = None
+            r = solve(facts + [T.bnot(c)], timeout_s)
+            if r.status == "unsat":
+                v = True
+            else:
+                r2 = solve(facts + [c], timeout_s)
+                if r2.status == "unsat":
+                    v = False
+            _ITE_CACHE[key] = v
+        if _ITE_CACHE[key] is not None:
+            truth[c] = _ITE_CACHE[key]
+    if not truth:
+        return roots
+    new = {}
+    for t in T.postorder(roots):
+        if t.op in ("const", "bconst", "var"):
+            new[t] = t
+            continue
+        if t.op == "ite" and t.args[0] in truth:
+            new[t] = new[t.args[1]] if truth[t.args[0]] else new[t.args[2]]
+            continue
+        if t.op == "abs":
+            c = T.ge(t.args[0], T.ZERO)
+            if c in truth:
+                new[t] = new[t.args[0]] if truth[c] else T.neg(new[t.args[0]])
+                continue
+        args = [new[a] if isinstance(a, T.Term) else a for a in t.args]
+        if all(x is y for x, y in zip(args, t.args)):
+            new[t] = t
+        else:
+            new[t] = T.rebuild(t.op, args, t.sort)
+    return [new[r] for r in roots]
